@@ -74,6 +74,16 @@ static void handle(const verif::Tokens& t, std::ostream& o)
     o << " XT "; show_vec(o, tt);
     return;
   }
+  if(op == "childmap")
+  {
+    std::string shape = c.str();
+    if(shape == "line") childmap<Shape::Hypercube<1>>(c, o);
+    else if(shape == "quad") childmap<Shape::Hypercube<2>>(c, o);
+    else if(shape == "hexa") childmap<Shape::Hypercube<3>>(c, o);
+    else if(shape == "tria") childmap<Shape::Simplex<2>>(c, o);
+    else o << "BAD-OP";
+    return;
+  }
   if(op == "gxfer" || op == "gforbid")
   {
     int which = (op == "gforbid" ? int(c.idx()) : 0);
